@@ -52,6 +52,8 @@ def gen_geometry(rng: random.Random, kind: str, small=False):
     cls = rng.choice(["1x1", "row", "col", "small", "small", "small", "mtp", "big", "rand"])
     if small and cls in ("mtp", "big", "rand"):
         cls = "small"
+    if rng.random() < 0.03:
+        cls = "wide"  # three-digit column numbers (only the rows are limited to 26)
     if cls == "1x1":
         r, c = 1, 1
     elif cls == "row":
@@ -62,6 +64,8 @@ def gen_geometry(rng: random.Random, kind: str, small=False):
         r, c = rng.randint(2, 4), rng.randint(2, 6)
     elif cls == "mtp":
         r, c = 8, 12
+    elif cls == "wide":
+        r, c = rng.choice([1, 1, 2]), rng.randint(100, 125)
     elif cls == "big":
         r, c = rng.choice([(16, 24), (6, 8), (4, 6)])
     else:
@@ -173,6 +177,11 @@ def build_labware(desc):
             well_id(int(k.split(",")[0]), int(k.split(",")[1])): v for k, v in names.items()
         }
     arr = np.array(desc["initial"], dtype=float)
+    if desc.get("shares_initial_array_with"):
+        # the caller passes the very same array object to two labware (a template plate and its replica)
+        arr = SHARED_ARRAYS.setdefault(desc["shares_initial_array_with"], arr)
+    elif desc.get("array_is_shared"):
+        SHARED_ARRAYS[desc["name"]] = arr
     lw = (_user_subclass(robotools.Labware) if desc.get("subclass") else robotools.Labware)(
         desc["name"],
         desc["rows"],
@@ -209,6 +218,14 @@ def build_worklist(wcfg, device=None, filepath=None):
         cls = robotools.Worklist  # deprecated alias of the EVO worklist (emits a DeprecationWarning)
     elif flavour == "subclass":
         cls = _user_subclass(cls)
+    if flavour == "configured_by_assignment":
+        # the public attributes are set after construction (e.g. after switching the tip type)
+        mv = wcfg.get("max_volume", 950)
+        wl = cls(filepath, max_volume=(950 if mv != 950 else 200))
+        wl.max_volume = mv
+        wl.auto_split = wcfg.get("auto_split", True)
+        wl.diti_mode = wcfg.get("diti_mode", False)
+        return wl
     return cls(
         filepath,
         max_volume=wcfg.get("max_volume", 950),
@@ -218,6 +235,7 @@ def build_worklist(wcfg, device=None, filepath=None):
 
 
 CALLER_ARRAYS = {}
+SHARED_ARRAYS = {}
 
 
 class Outcome:
@@ -242,6 +260,7 @@ class World:
         self.case = case
         self.att = attach.current()
         self.descs = {d["name"]: d for d in case["worktable"]}
+        SHARED_ARRAYS.clear()
         self.lw = {d["name"]: build_labware(d) for d in case["worktable"]}
         self.device = device or case.get("worklist", {}).get("device", "evo")
         self.wl = build_worklist(case.get("worklist", {}), self.device, filepath)
@@ -365,7 +384,11 @@ def shape_volumes(rng, vols, like=None):
     if style == "typed":
         # other numeric types with exactly the same values: python ints, integer / float32 arrays
         if all(float(v).is_integer() and abs(v) < 2**31 for v in vols):
-            return rng.choice([[int(v) for v in vols], enc(np.array([int(v) for v in vols], dtype=np.int64))]), "ints"
+            ints = [int(v) for v in vols]
+            forms = [ints, enc(np.array(ints, dtype=np.int64))]
+            if all(0 <= i < 60000 for i in ints):
+                forms.append({"__ndu16__": ints})  # unsigned integer arrays (e.g. read from an instrument file)
+            return rng.choice(forms), "ints"
         # (float32 arrays are deliberately not generated: with NumPy 2 promotion rules `python_float *
         #  numpy.float32` is evaluated in single precision, so the composition tracking inherits the
         #  precision the caller chose for the volumes - not a question the properties decide)
